@@ -461,6 +461,10 @@ def decide(R, terms, bad, errors, describe, model_body, key_fn, size_fn, header,
         return {"case": cases[i], "observation": results.get(cases[i]["id"]), "model": model[-8000:],
                 "agree": bad[i][0], "holds": bad[i][1], "failed": failed}
 
+    if os.environ.get("VERIF_DEBUG"):
+        with open(os.path.join(ROOT, "replays", "debug_%s.txt" % R.prop), "w") as f:
+            for i in sorted(bad, key=size_fn):
+                f.write("agree=%s holds=%s %s\n" % (bad[i][0], bad[i][1], describe(i)[:600]))
     seen_keys = {}
     for i in sorted(holds_fail, key=size_fn):
         k = key_fn(i)
